@@ -2,3 +2,7 @@ package aggregate
 
 // VerifC15AggregateGenesisImport (shared with the C13 check): InitGenesis of the aggregate module does not panic on a validated genesis.
 func VerifC15AggregateGenesisImport() { c13AggregateGenesis() }
+
+// VerifC15ValidatedAggregateGenesisImport (shared with the C12 check): ANY aggregate genesis state its Validate accepts is
+// imported without a panic (obligation R6-validated-genesis-is-imported-without-panic).
+func VerifC15ValidatedAggregateGenesisImport() { c12ValidatedGenesis() }
